@@ -514,6 +514,8 @@ func (r *yieldRewriter) rewriteForStmt(
 	}
 
 	if trivalPost {
+		// body may end with a switch stmt containing yield
+		r.generateLastNormalIfNecessary(body)
 		callFor := r.CallFor(
 			r.ForCondFun(stmt.Cond),
 			r.ForPostFun(stmt.Post),
